@@ -16,6 +16,7 @@ package tsi
 
 import (
 	"regexp"
+	"strings"
 
 	"github.com/openGemini/openGemini/lib/pool"
 	"github.com/openGemini/openGemini/lib/util"
@@ -112,16 +113,22 @@ func matchSeriesKeyTagFilter(tags influx.PointTags, tf *tagFilter, tagArray bool
 	matchKey := util.Bytes2str(tf.key)
 	matchValue := util.Bytes2str(tf.value)
 
-	var re *regexp.Regexp
-	if tf.isRegexp {
-		re = regexp.MustCompile(matchValue)
+	// a pure-literal regexp has been rewritten into its unescaped literal (tagFilter.Init): it matches by
+	// containment and must not be compiled (the literal may hold regexp metacharacters)
+	matchRegexp := func(v string) bool { return strings.Contains(v, matchValue) }
+	if tf.isRegexp && !tf.valueIsLiteral {
+		re, err := regexp.Compile(matchValue)
+		if err != nil {
+			return false
+		}
+		matchRegexp = re.MatchString
 	}
 
 	for _, tag := range tags {
 		if tag.Key == matchKey {
 			exist = true
 			if tf.isRegexp {
-				match = re.MatchString(tag.Value)
+				match = matchRegexp(tag.Value)
 			} else {
 				match = matchWithNoRegex(matchValue, tag.Value)
 			}
@@ -141,7 +148,7 @@ func matchSeriesKeyTagFilter(tags influx.PointTags, tf *tagFilter, tagArray bool
 	}
 	// if matchKey is not exsit in tags, compare matchValue with empty string
 	if tf.isRegexp {
-		match = re.MatchString("")
+		match = matchRegexp("")
 	} else {
 		match = matchWithNoRegex(matchValue, "")
 	}
